@@ -159,7 +159,10 @@ def getAbsFont (j : Json) : Except String AbsFont := do
     postFormat3 := ← getBool (← field j "postFormat3")
     isTrueType := ← getBool (← field j "isTrueType")
     keepNames := ← getBool (← field j "keepNames")
-    svgNamesRequired := ← getBool (← field j "svgNamesRequired") }
+    svgNamesRequired := ← getBool (← field j "svgNamesRequired")
+    coverages := ← match fieldOpt j "coverages" with
+      | some c => do (← getArr c).mapM getNats
+      | none => pure [] }
 
 partial def getSvgNode (j : Json) : Except String SvgNode := do
   let k ← getStr (← field j "k")
@@ -383,7 +386,8 @@ def dispatch (op : String) (j : Json) : Except String Json := do
         ("cblc-runs", f.cblcStrikes.all (fun s => consecutiveFrom s.1 s.2.2 && decide (s.2.2.length = s.2.1 + 1 - s.1) && decide (s.2.1 < f.numGlyphs)) &&
                       strictlyIncreasing (f.cblcStrikes.flatMap fun s => s.2.2)),
         ("glyph-set", f.cmapGids.all (· < f.numGlyphs) && decide (f.hmtxLen = f.numGlyphs) && decide (f.maxpNumGlyphs = f.numGlyphs) && decide (f.outlineGlyphs = f.numGlyphs)),
-        ("post", (!f.isTrueType || f.keepNames || f.svgNamesRequired || f.postFormat3))]
+        ("post", (!f.isTrueType || f.keepNames || f.svgNamesRequired || f.postFormat3)),
+        ("coverage-sorted", f.coverages.all strictlyIncreasing)]
       return obj [("valid", Json.bool (validFont f)), ("failed", jStrs ((clauses.filter (fun c => !c.2)).map (·.1)))]
   | "glyph-name" =>
       let cps ← getNats (← field j "cps")
